@@ -197,6 +197,7 @@ ADDENDA8 = {
  "C16": " 15 encoding-sensitive strings (outside the BMP, combining marks, U+2028 / U+2029 / NEL, BOM, directional mark, case-folding traps) in every position.",
  "C18": " ChainMap / defaultdict / MutableMapping positions; a ChainMap's list of maps and each map count as the instance's containers.",
  "C19": " Classes without fields (hooks log into a trace): own or inherited hooks x five class kinds x five positions x every entry point, two rounds.",
+ "C20": " Builder histories over two different dataclasses that share a __name__ (three builder settings, depth 5): the document of the latest build and every definition it reaches equal a fresh builder's.",
  "C17": " Decoding a VALID document of a class that is not a module attribute is judged separately from the error paths (for dataclass kinds it must work).",
 }
 for _k, _v in ADDENDA8.items():
